@@ -197,6 +197,14 @@ class Spec(object):
     def families(self, tier):
         return focused(tier)
 
+    def explicit_families(self, tier):
+        out = []
+        for tr in (["NaiveBlocking"] if tier == "quick" else ["NaiveBlocking", "MatrixBlocking", "NodeClassMatrix", "NodePopulation"]):
+            out.append(cfg("E blocking syscap=3 / %s" % tr, "E", [node(c=1), node(c=1, cap=0)],
+                           {"A": klass([ARR, None], [[1.0, 0.5], [2.0, 1.0]], route=matrix([[0.0, 1.0], [0.5, 0.0]]))},
+                           K=None, T=BIG, system_capacity=3, tracker=tr, features=["explicit", "tracker"]))
+        return out
+
 
 def focused(tier):
     K = 2 if tier == "quick" else 3
